@@ -37,8 +37,12 @@ MD = "sdp.MediaDescription"
 
 
 # ------------------------------------------------------------------ interpreter glue
-def build_hook(prog: Program):
+def build_hook(prog: Program, outer=None):
     def extra(call: ast.Call, ev: Evaluator) -> Any:
+        if outer is not None:
+            r_ = outer(call, ev)
+            if r_ is not NotImplemented:
+                return r_
         name = unparse(call.func)
         if name == "re.match":
             return re.match(*[ev.ev(x) for x in call.args])
@@ -74,7 +78,7 @@ def build_hook(prog: Program):
                 elif f.id == "int":
                     fn = int
             if fn is None:
-                raise Unknown("map function")
+                return NotImplemented   # lambdas and other callables: the interpreter's generic map
             try:
                 return [fn(x) for x in seq]
             except ValueError:
